@@ -61,6 +61,8 @@ def run(ctx):
     evaluate(ctx, cases, CLASSES, {"items": "invalid", "items-valid": "valid", "optional-absent": "by-spec", "null-allowed": "valid", "valid": "valid"},
              "array limits")
     from vlib.valuecheck import replay_findings
+    from vlib import regress
+    regress.search(ctx, {"C07"})          # the shape-agnostic search step (DESIGN.md 12.8)
     replay_findings(ctx)
     ctx.cov["rule"] = ("systematic: nesting depth 1-3 x 8 (minItems, maxItems) shapes (the same limits at every level: guard of C07) x 5 positions; for every array "
                        "occurrence of 2-4 valid documents, arrays of length min-1, min, max, max+1 at that level; random: array-focused in-guard schemas; "
